@@ -129,7 +129,7 @@ def prepared_call(ctx) -> None:
     U(ctx, 'C10.prepared', fn, 'statement = statement.query.where(where)', [('self.ordinal', True), ('where is not None', True)], 'and applied to the statement whenever it exists', 'prepared:apply', inlined=False)
     U(ctx, 'C10.prepared', fn, 'return statement', [], 'the (filtered) statement is what gets read', 'prepared:return', inlined=False, siblings=False)
     rs = [r for r in core.walk_local(fn.node) if isinstance(r, ast.Raise)]
-    ctx.check(len(rs) == 1 and sorted(cfg.cguards(rs[0], fn.node)) == sorted([('self.ordinal', False), (f'{lo} is not None or {up} is not None', True)]), 'C10.prepared', fn, 'bounds given for a source without an ordinal are refused', rs[0] if rs else fn.node, key='prepared:refuse')
+    ctx.check(len(rs) == 1 and sorted(cfg.cguards(rs[0], fn.node)) == cfg.cg(('self.ordinal', False), (f'{lo} is not None or {up} is not None', True)), 'C10.prepared', fn, 'bounds given for a source without an ordinal are refused', rs[0] if rs else fn.node, key='prepared:refuse')
     first = next((a for a in fn.body if isinstance(a, ast.Assign)), None)
     ctx.check(first is not None and core.src(first) == 'statement = self.statement', 'C10.prepared', fn, 'the window is cut out of the prepared statement', first or fn.node, key='prepared:base')
 
